@@ -281,11 +281,18 @@ package tchannel
 // ID / messageType (verif_contracts.go, verif_contracts_c13.go); an interface
 // contract takes precedence over static dispatch in the engine, so they have
 // to be repeated here.
-//@ ghost func mtype(m message) int
+// (mtype is the abstraction function of the library's own message types; the
+// ghost mtypeOther stands for any other implementation)
+//@ ghost func mtypeOther(m message) int
+//@ pred mtype(m message) := ite(istype(m, *initReq), messageTypeInitReq, ite(istype(m, *initRes), messageTypeInitRes,
+//@        ite(istype(m, *callReq), messageTypeCallReq, ite(istype(m, *callRes), messageTypeCallRes,
+//@        ite(istype(m, *callReqContinue), messageTypeCallReqContinue, ite(istype(m, *callResContinue), messageTypeCallResContinue,
+//@        ite(istype(m, *cancelMessage), messageTypeCancel, ite(istype(m, *pingReq), messageTypePingReq,
+//@        ite(istype(m, *pingRes), messageTypePingRes, ite(istype(m, *errorMessage), messageTypeError, mtypeOther(m)))))))))))
 //@ iface message.messageType() (t messageType)
 //@   ensures t == mtype(self)
 //@ iface message.write(w *typed.WriteBuffer) (err error)
-//@   ensures err == w.err
+//@   ensures old(w.err) == nil ==> err == w.err
 //@   ensures istype(self, *errorMessage) && len(self.(*errorMessage).message) > 65535 ==> err != nil
 //@   ensures istype(self, *errorMessage) && old(w.err) == nil && len(old(w.remaining)) < 28 + len(self.(*errorMessage).message) ==> err != nil
 //@   ensures istype(self, *errorMessage) && old(w.err) == nil && len(self.(*errorMessage).message) <= 65535 &&
